@@ -160,12 +160,11 @@ PLAN = {
     },
     'C18': {
         'bounded': ['emoji_tables', 'phonetic_api', 'update_engine'],
-        'level': 'other',
+        'level': 'proof',
         'units': ['fixed_session', 'phon', 'rank'],
-        'technique': 'Verus: emoticon/emoji clauses of the assembled list around an abstracted 5-line region (assumed contract)',
-        'claim': 'Proof of the emoticon branch (emoji pushed with rank 1; literal text kept unless it is the transliteration itself) and of what reaches the emoji-name region (same punctuation as the other candidates, only outside ANSI mode, only if no emoticon matched); the region that builds the named emoji items is an assumed contract.',
-        'note': COMMON_TRUST + 'Region content (zip(1..).map closure + extend) is abstracted; emojicon tables are T3.',
-        'explanation': 'Contract proof around an abstracted region: see coverage.obligation_list; the region itself is an assumption.',
+        'technique': 'Verus: emoticon / emoji-name clauses of the assembled list, with the real zip(1..).map(closure) + extend code verified in place',
+        'claim': 'Proof, for both methods, of the emoticon branch (emoji pushed with rank 1; in phonetic mode the literal text kept unless it is the transliteration itself) and of the emoji-name branch on the REAL code: every emoji the table lists for the word part (English name in phonetic mode, Bengali name in fixed mode) is appended in table order, the k-th with rank k, each wrapped in the same (curled) punctuation as every other candidate, only outside ANSI mode and only if no emoticon matched; the returned list is the (stable / unstable) sort of that assembly, so the non-emoji candidates keep their relative order (C07 / C15 lemmas).',
+        'note': COMMON_TRUST + 'The two five-line regions are no longer abstracted: the closure body (Rank::emoji_ranked(format!(...), r)) is verified against its ensures; the rewrites are mechanical (D14: the closure is bound to a local and its tuple pattern opened by a let, because Verus cannot quantify over an anonymous closure). Assumed (T3): std contracts for Iterator::zip / map (vstd), Vec::extend over a Map (applies the closure front to back and appends), RangeFrom<u8> yields start, start+1, ...; the emojicon tables themselves (Data look-ups) with the data precondition of fewer than 256 emoji per name.',
     },
     'C19': {
         'kani': ['k_ffi_config_lifecycle', 'k_ffi_null_free', 'k_keycode_to_char'], 'miri': ['ffi_life_cycles'], 'ffi_native': ['ffi_life_cycles_native'],
